@@ -269,7 +269,12 @@ class Verdict:
 
     def violation(self, signature, what, payload):
         """signature: a stable abstract identification of the failing behaviour (string)."""
-        if not payload.get("no_confirm") and self._disturbed(payload.get("run")):
+        # ("also": the other runs a relational judgement rests on - the plain twin of a coloured run, the parts of a
+        # concatenation -; they are confirmed like the run itself and not kept in the replay file)
+        also = payload.get("also") or []
+        if also:
+            payload = {k: v for k, v in payload.items() if k != "also"}
+        if not payload.get("no_confirm") and (self._disturbed(payload.get("run")) or any(self._disturbed(r) for r in also[:3])):
             self.unconfirmed += 1
             log(f"UNCONFIRMED property={self.pid} (the run does not reproduce its own output when repeated alone; dropped) {what[:160]}")
             if self.unconfirmed > 20:
